@@ -88,7 +88,9 @@ pub fn generate(_cfg: &RunCfg, _out: &mut Outcome) -> Scenario {
                 _ => t::pick(&[1u64, 2, 3, 50, 500]),
             };
             let kind = match t::weighted(&[4, 3, 2, 2, 2, 2, 2, 1]) {
-                7 => ClientKind::NeverReads { hold_ms: t::pick(&[1u64, 50, 5000, 41_000, 43_000, 100_000]) },
+                // (wave 15) u64::MAX = a peer that never reads and never goes away either: the keep-alive time-out is then the
+                // only thing that ends its session, and `howl` must still return — at quiescence, no bound is asserted
+                7 => ClientKind::NeverReads { hold_ms: t::pick(&[1u64, 50, 5000, 41_000, 43_000, 100_000, u64::MAX, u64::MAX]) },
                 6 => ClientKind::Sse { n: t::range(0, 5), gap_ms: t::pick(&[0u64, 1, 200, 4000]) },
                 5 => ClientKind::Panic { delay_ms: t::pick(&[0u64, 1, 50, 2000]) },
                 0 if long => ClientKind::Slow { delay_ms: t::pick(&[2000u64, 20_000, 44_000, 46_000, 60_000, 100_000]) },
@@ -420,6 +422,10 @@ fn execute(sc: &Scenario, out: &mut Outcome) {
                     c.send(b"GET /fast HTTP/1.1\r\nHost: s\r\n\r\n", 0);
                     simcore::with(|w| w.count("fault.client_never_reads"));
                     // nothing is read, so nothing is owed as far as this client can tell; it goes away by itself
+                    if hold_ms == u64::MAX {
+                        simcore::with(|w| w.count("fault.client_never_reads_never_leaves"));
+                        std::future::pending::<()>().await;
+                    }
                     sleep(hold_ms * MS).await;
                 }
                 ClientKind::Half { rest_after_ms } => {
@@ -603,8 +609,11 @@ fn execute(sc: &Scenario, out: &mut Outcome) {
             }
         }
         if let ClientKind::NeverReads { hold_ms } = plan.kind {
-            if plan.start_ms <= sc.sigint_ms && sc.sigint_ms < plan.start_ms + hold_ms.min(42_000) {
+            if plan.start_ms <= sc.sigint_ms && sc.sigint_ms < plan.start_ms.saturating_add(hold_ms.min(42_000)) {
                 out.probe("c18.session_stuck_in_its_write_at_the_interrupt");
+            }
+            if hold_ms == u64::MAX {
+                out.probe("c18.peer_that_never_reads_and_never_leaves");
             }
         }
         if ob.sent_complete_request {
